@@ -808,7 +808,7 @@ func c16FrozenRules(c *Ctx) *RuleResult {
 
 // c17KeyComplete: cache keys name everything that distinguishes the cached objects.
 func c17KeyComplete(c *Ctx) *RuleResult {
-	r := &RuleResult{Rule: "C17.key-complete", Floor: 2,
+	r := &RuleResult{Rule: "C17.key-complete", Floor: 1,
 		Doc: "the tree presented is the one named by the digest, however it is explored: every composite literal of a cache key type in pkg/cas sets all fields of the key explicitly (a Tree's root and a Directory with the same digest are different objects)"}
 	p := c.P
 	for _, u := range p.UnitsIn("pkg/cas") {
